@@ -55,7 +55,9 @@ def make_trace(tid, rng, nops=30, **opt):
     kind = "fixed" if rng.random() < 0.2 else "dynamic"
     bs = rng.choice([2 << 20, 2 << 20, 512 << 10, 4096, 4 << 20, 65536])
     n = rng.randrange(2, 24 if bs <= (2 << 20) else 8)
-    if opt.get("many"):  # more blocks than the 4096-entry BAT cache holds
+    if opt.get("many") == "mid":  # a BAT of several hundred entries
+        kind, bs, n = "dynamic", rng.choice([4096, 65536]), rng.randrange(200, 700)
+    elif opt.get("many"):  # more blocks than the 4096-entry BAT cache holds
         kind, bs, n = "dynamic", 4096, rng.randrange(4200, 4600)
     npos = n + rng.randrange(0, 3)
     pos = list(range(npos))
@@ -91,7 +93,7 @@ def run(ctx):
     sts = diskprop.dump_states(ctx, "Vhd", "Vhd_img4.cfg" if thorough else "Vhd_img.cfg")
     diskprop.replay_states(ctx, "vhd", sts, PROFILES_THOROUGH if thorough else PROFILES_QUICK, build,
                            attrs_of=_attrs, cap=80 if thorough else 48, sectors_api=_sectors)
-    diskprop.traces(ctx, "vhd", lambda tid, r: make_trace(tid, r, 40 if thorough else 25), 400 if thorough else 64,
+    diskprop.traces(ctx, "vhd", lambda tid, r: make_trace(tid, r, 40 if thorough else 25, many=("mid" if tid % 8 == 0 else None)), 400 if thorough else 64,
                     "TraceDisk", "TraceDisk.cfg", lambda t: {"format": "vhd", "block_size": t["geo"]["cellB"], "kind": t["img"]["kind"]})
 
 
